@@ -5103,7 +5103,9 @@ func readOfficialHeader(buf []byte) (size uint32, containerTyper func(index uint
 	}
 	cf := func(index uint, card int) (newType byte) {
 		newType = containerBitmap
-		if card < ArrayMaxSize {
+		// RoaringFormatSpec: a non-run container is an array when its
+		// cardinality is at most 4096, a bitset above that.
+		if card <= ArrayMaxSize {
 			newType = containerArray
 		}
 		return newType
